@@ -10,6 +10,7 @@ import TsVerif.C17.FullLemmas
 import TsVerif.C17.StackThm
 import TsVerif.C17.SortOrder
 import TsVerif.C17.MultiOrder
+import TsVerif.C17.WellNested
 /-!
 # C17 — Highlight events are well nested and reproduce the source text exactly
 
@@ -27,6 +28,7 @@ Clause map (models: `TsVerif/C17/Model.lean`, `Merge.lean`; judges: `Judge.lean`
 |---|---|---|
 | HTML, tags removed + entities decoded = normalised text | `render_roundtrip_gen` (any decoder, ANY event stream), `render_roundtrip_fixed` (full statement, for the iterator of `fixes/C17-lossy-truncated.diff`), `render_roundtrip_partial` (unchanged iterator, chunks without tail loss); OPEN `render_roundtrip` is FALSE on the unchanged tree: `render_roundtrip_witness_truncated`, `render_roundtrip_witness_final_invalid` | proved / witness |
 | "invalid UTF-8 replaced" | `lossyFixed_eq_spec` (∀ bytes), `lossy_eq_spec_partial` (no tail loss), witnesses `lossy_drops_truncated_tail`, `lossy_drops_final_replacement` | proved / witness |
+| "reproducing the source text exactly" | `render_reproduces_source` (well-formed stream, valid UTF-8 source, spans ending on character boundaries: html text = source without CRs + final-newline rule) | proved |
 | normalisation of the WHOLE source | `normalize_whole` (well-formed stream whose chunks do not end inside a character ⇒ decoded chunks = decoded source), `render_roundtrip_whole_fixed` | proved |
 | renderer does not panic on a well-formed stream | `render_total_of_wellFormed` | proved |
 | Source spans contiguous/increasing/covering, Start/End nested and closed (END-TO-END model: layers + locals + the injection step computed by the model, `Full.lean`) | `merge_full_wellformed` (terminates and is well formed for every layer/match table with offsets inside the source and injections creating later layers; both conditions checked on every real case; tied by exact reproduction of real streams with locals AND injections, combined, self/parent) | proved for the model, judged on every real stream |
@@ -34,6 +36,7 @@ Clause map (models: `TsVerif/C17/Model.lean`, `Merge.lean`; judges: `Judge.lean`
 | each End closes the highlight of the capture that ends there (scope stack = captures containing the byte) | `merge_stack_spec_partial` (single-layer merge, captures in nesting order: over every Source span the stack of open highlights IS the list of highlights of the containing captures, innermost first); several layers: judged on every applicable real stream (`judgeStacks`), theorem OPEN | proved for one layer, judged |
 | events in offset order across layers (ends before starts at one offset, deeper layers first) | `sort_key_order` (strict total order), `sort_layers_restores_order`, `insert_layer_keeps_order`, `merge_layers_stay_ordered_partial` (every iteration leaves the layer list ordered by `sort_key`, so the head has the minimal key) — hypothesis: the INITIAL list is ordered; FALSE for the unchanged `Highlighter::highlight` with two combined-injection layers (`initial_layers_unordered_witness`; fix `fixes/C17-initial-layer-order.diff`) | proved / witness |
 | no event is late in the multi-layer merge (each Start at its capture's start, each End at its capture's end) | `initial_layers_ordered`, `merge_layers_stay_ordered` (UNCONDITIONAL for the repaired set-up), `merge_events_in_place` (byte offset ≤ every pending boundary of every layer in every reachable state, under `DefsNice`) | proved for the repaired multi-layer model |
+| start/end events properly nested across layers ("every End closes the most recently opened still-open span") | `merge_well_nested_partial` (repaired multi-layer model, static layers, `staticNice`: at every `HighlightEnd` the top of the global open stack is the span that ends there; the stack is sorted by end and is exactly all layers' end stacks); witness for the dropped premise `well_nested_needs_crossNice` | proved (static layers), judged on every applicable real stream |
 | injected spans inside the content | `intersect_ranges_spec`, `injected_content_inside` (port of `intersect_ranges`: every content range is non-empty, inside a range of the parent layer, inside a content node and — unless include-children — clear of the node's children); that a layer's SPANS start inside its included ranges is a property of parsing with included ranges (C13), judged on every real stream by `judgeInjected` | ranges proved, spans judged |
 | local reference like definition | `local_ref_like_def`, `findDef_newest` (port of the locals branch for one layer, `Locals.lean`, tied by correspondence on layers with a locals query): a reference whose enclosing scopes up to the defining one all inherit and do not define the name takes the highlight stored for the newest admissible definition; also judged on every real stream (`judgeLocals`) | proved for the one-layer model, judged |
 
@@ -207,6 +210,37 @@ theorem render_roundtrip_whole_fixed (cfg : RCfg) (hattr : ∀ h, 62 ∉ cfg.att
   rw [normalize_whole evs src hwf hb] at h
   simpa using h
 
+/-- Valid UTF-8 is left unchanged by the lossy decoding. -/
+theorem lossySpec_valid (src : Bytes) (h : fromUtf8 src = none) : lossySpec src = src :=
+  ((fromUtf8_walk src.length src 0 (Nat.le_refl _)).1 h).1
+
+/-- THE RENDERER CLAUSE OF THE PROPERTY, for the code as committed (`lossyFixed`): for a WELL-FORMED
+event stream over a VALID UTF-8 source whose `Source` spans do not end inside a character, the HTML
+with tags removed and entities decoded is the source with carriage returns dropped, followed by the
+final newline — which may be omitted only if that text already ends in a newline (exactly what
+`judgeHtml` checks on every real output). -/
+theorem render_reproduces_source (cfg : RCfg) (hattr : ∀ h, 62 ∉ cfg.attr h) (evs : List Ev) (src : Bytes)
+    (hwf : wellFormed src.length evs = true) (hvalid : fromUtf8 src = none)
+    (hb : ∀ s e, Ev.source s e ∈ evs → endsTruncated (sliceT src s e) = false) :
+    let t := src.filter (· ≠ 13)
+    let x := htmlText (renderT lossyFixed cfg evs src).html
+    x = t ++ [10] ∨ (x = t ∧ t.getLast? = some 10) := by
+  have h := render_roundtrip_whole_fixed cfg hattr evs src hwf hb
+  rw [lossySpec_valid src hvalid] at h
+  exact h
+
+/-- non-vacuity: `a<é\r\n€` highlighted in two spans; the text comes back with `\r` dropped -/
+example : wellFormed 9 [Ev.start 1, .source 0 4, .stop, .source 4 9] = true ∧
+    fromUtf8 [97, 60, 0xC3, 0xA9, 13, 10, 0xE2, 0x82, 0xAC] = none ∧
+    (∀ s e, Ev.source s e ∈ [Ev.start 1, .source 0 4, .stop, .source 4 9] →
+      endsTruncated (sliceT [97, 60, 0xC3, 0xA9, 13, 10, 0xE2, 0x82, 0xAC] s e) = false) ∧
+    htmlText (renderT lossyFixed exCfg [Ev.start 1, .source 0 4, .stop, .source 4 9] [97, 60, 0xC3, 0xA9, 13, 10, 0xE2, 0x82, 0xAC]).html
+      = [97, 60, 0xC3, 0xA9, 10, 0xE2, 0x82, 0xAC, 10] := by
+  refine ⟨by decide, by decide, ?_, by decide⟩
+  intro s e hm
+  simp only [List.mem_cons, List.not_mem_nil, or_false, reduceCtorEq, false_or, Ev.source.injEq] at hm
+  rcases hm with ⟨rfl, rfl⟩ | ⟨rfl, rfl⟩ <;> decide
+
 /-- non-vacuity: chunk boundaries between characters (é | €), CR LF inside a highlight -/
 example : wellFormed 7 [Ev.source 0 2, .start 1, .source 2 7, .stop] = true ∧
     (∀ s e, Ev.source s e ∈ [Ev.source 0 2, .start 1, .source 2 7, .stop] →
@@ -364,7 +398,7 @@ example : (initLayersR unorderedInitR [0, 1, 2]).map sortKey = [some (0, true, 0
        .source 9 14, .stop, .source 14 16, .stop] := by decide
 
 /-- non-vacuity: an ordered list of three layers (end at 4 before start at 4, deeper first) -/
-example : Sorted [⟨2, [], [4]⟩, ⟨1, [], [4]⟩, ⟨1, [⟨4, 6, 1, .hl (some 1)⟩], []⟩] := by
+example : Sorted [⟨2, [], [4], 0⟩, ⟨1, [], [4], 1⟩, ⟨1, [⟨4, 6, 1, .hl (some 1)⟩], [], 2⟩] := by
   refine ⟨⟨(4, false, 2), rfl, ?_⟩, ⟨(4, false, 1), rfl, ?_⟩, ⟨(4, true, 1), rfl, ?_⟩, trivial⟩
   · intro y hy
     simp only [List.mem_cons, List.not_mem_nil, or_false] at hy
@@ -395,6 +429,73 @@ theorem initial_layers_unordered_witness :
     (mergeLayers unorderedInit [0, 1, 2] 16).1 =
       [.start 1, .source 0 8, .stop, .start 2, .source 8 9, .start 3, .start 4, .stop, .source 9 14, .stop,
        .source 14 16, .stop] := by decide
+
+/-! ## Well-nestedness across layers -/
+
+/-- WELL-NESTEDNESS of the merged multi-layer stream.  Layers as static data (the root and the
+layers of its combined injections — no injection capture during the run), every layer's captures in
+start order, nested or disjoint, in nesting order, different layers pairwise laminar and tie-free at
+starts (`staticNice`, decidable; the driver evaluates it on every real case), distinct layer ids.
+Run the repaired model and keep the GLOBAL stack of the ends of the open spans by stack discipline
+(`iterG`: push the capture's end at a `HighlightStart`, pop at a `HighlightEnd`, FAIL if the top is not
+the end being closed).  Then the run never fails: every `HighlightEnd` closes the most recently
+opened still-open span, and that span ends exactly there; moreover the global stack is always sorted
+by end (inner spans end first) and is a permutation of all layers' `highlight_end_stack`s.
+`_partial`: static layers (injections created during the run: OPEN, needs the uniqueness of layer
+references as an invariant); `crossNice` cannot be dropped (witness below). -/
+theorem merge_well_nested_partial (defs : List LayerDef) (top : List Nat) (n k : Nat) (st' : MSt)
+    (hnice : staticNice defs = true) (hnd : top.Nodup)
+    (h : iterM defs n k { layers := initLayersR defs top } = some st') :
+    ∃ G, iterG defs n k { layers := initLayersR defs top } [] = some (st', G) ∧
+      G.Pairwise (· ≤ ·) ∧ G.Perm (allEnds st'.layers) := by
+  simp only [staticNice, Bool.and_eq_true] at hnice
+  obtain ⟨⟨h1, h2⟩, h3⟩ := hnice
+  have hn := defsNice_of_static h1 h2
+  obtain ⟨ho, _⟩ := init_oinv defs hn top
+  have hv := init_ninv defs top hnd
+  have hE : allEnds (initLayersR defs top) = [] := by
+    have : ∀ y ∈ initLayersR defs top, y.ends = [] := by
+      intro y hy
+      have hmem : y ∈ top.filterMap (mkLayer defs) := by
+        unfold initLayersR at hy
+        cases hf : top.filterMap (mkLayer defs) with
+        | nil => rw [hf] at hy; simp at hy
+        | cons l0 r =>
+          rw [hf] at hy
+          simp only at hy
+          rcases mem_fold_insertLayer r [l0] y (mem_sortLayers hy) with h | h
+          · simp at h; rw [h]; exact List.mem_cons_self
+          · exact List.mem_cons_of_mem _ h
+      obtain ⟨id, _, hm⟩ := List.mem_filterMap.mp hmem
+      unfold mkLayer at hm
+      cases hg : defs[id]? with
+      | none => rw [hg] at hm; simp at hm
+      | some d => rw [hg] at hm; simp only [Option.map_some, Option.some.injEq] at hm; rw [← hm]
+    exact allEnds_nil_of _ this
+  exact iterG_well_nested defs hn h2 h3 n k _ st' [] ho hv List.Pairwise.nil (by rw [hE]) h
+
+/-- non-vacuity: a root layer and one combined-injection layer inside its first span; the global
+stack after 0..8 iterations -/
+def nestedStatic : List LayerDef := [
+  ⟨0, [⟨0, 10, 1, .hl (some 1)⟩, ⟨12, 14, 3, .hl (some 3)⟩]⟩,
+  ⟨1, [⟨2, 5, 2, .hl (some 2)⟩, ⟨5, 7, 4, .hl (some 4)⟩]⟩]
+
+example : staticNice nestedStatic = true ∧
+    (List.range 9).map (fun k => (iterG nestedStatic 15 k { layers := initLayersR nestedStatic [0, 1] } []).map (·.2)) =
+      [some [], some [10], some [5, 10], some [10], some [7, 10], some [10], some [], some [14], some []] := by decide
+
+/-- `crossNice` cannot be dropped: a START TIE where the shallower layer's span is the longer one.
+The deeper layer's Start is emitted first, so the stack is `[10, 4]`, and the End emitted at 4 finds
+the span ending at 10 on top: the ghost run fails at the third iteration although the loop goes on
+(the unchanged code does exactly this on real streams: the judge reports such cases as
+`skip-start-tie`). -/
+def tieStatic : List LayerDef := [⟨0, [⟨0, 10, 1, .hl (some 1)⟩]⟩, ⟨1, [⟨0, 4, 2, .hl (some 2)⟩]⟩]
+
+theorem well_nested_needs_crossNice :
+    crossNice tieStatic = false ∧
+    (iterM tieStatic 10 3 { layers := initLayersR tieStatic [0, 1] }).isSome = true ∧
+    (iterG tieStatic 10 2 { layers := initLayersR tieStatic [0, 1] } []).map (·.2) = some [10, 4] ∧
+    iterG tieStatic 10 3 { layers := initLayersR tieStatic [0, 1] } [] = none := by decide
 
 /-! ## Several layers -/
 
